@@ -351,30 +351,78 @@ Proof.
     apply existsb_exists. exists p. split; [apply prop_refs_spec; exact Hp1|apply is_param_spec; exact Hp2].
 Qed.
 
-(* ---------------------------------------------------------------- the checker decides the predicate *)
-Theorem crate_ok_sound g ar vs : crate_ok g ar vs = true -> wf_crate g ar vs.
+(* ---------------------------------------------------------------- step level *)
+Lemma is_control_spec c s : is_control c s = true <-> IsControl c s.
 Proof.
-  unfold crate_ok. rewrite !andb_true_iff. intros [[[[H1 H2] H3] H4] H5]. constructor.
+  unfold is_control, IsControl. fold_bool. rewrite andb_true_iff, has_type_spec. split.
+  - intros [H1 H3]. split; [exact H1|].
+    destruct (get c "instrument") as [j|]; [|discriminate]. exists j. split; [reflexivity|].
+    destruct (ref_of j) as [i|]; [|discriminate]. apply String.eqb_eq in H3. subst. reflexivity.
+  - intros [H1 [j [Hj Hr]]]. split; [exact H1|]. rewrite Hj, Hr. apply String.eqb_refl.
+Qed.
+
+Lemma results_ok_spec g ar a v :
+  results_ok g ar a v = true <->
+  (exists x, PRef a "result" x) /\ forall x, PRef a "result" x -> exists e, Entity g x e /\ ValOk g ar e x v.
+Proof.
+  unfold results_ok.
+  assert (Hall : forall rs, forallb (fun x => existsb (fun e => id_is e x &&& val_ok g ar e x v) g) rs = true <->
+                 forall x, In x rs -> exists e, Entity g x e /\ ValOk g ar e x v).
+  { intro rs. rewrite forallb_forall. split; intros H x Hx; specialize (H x Hx).
+    - apply existsb_exists in H. destruct H as [e [Hin He]]. fold_bool. apply andb_true_iff in He. destruct He as [Hi Hv].
+      exists e. split; [split; [exact Hin|apply id_is_spec; exact Hi]|apply val_ok_spec; exact Hv].
+    - destruct H as [e [[Hin Hi] Hv]]. apply existsb_exists. exists e. split; [exact Hin|]. fold_bool. apply andb_true_iff.
+      split; [apply id_is_spec; exact Hi|apply val_ok_spec; exact Hv]. }
+  destruct (prop_refs a "result") as [|r rs] eqn:E.
+  - split; [discriminate|]. intros [[x Hx] _]. apply prop_refs_spec in Hx. rewrite E in Hx. destruct Hx.
+  - rewrite Hall. split.
+    + intro H. split; [exists r; apply prop_refs_spec; rewrite E; left; reflexivity|].
+      intros x Hx. apply H. rewrite <- E. apply prop_refs_spec. exact Hx.
+    + intros [_ H] x Hx. apply H. apply prop_refs_spec. rewrite E. exact Hx.
+Qed.
+
+Lemma sv_ok_spec g ar v : sv_ok g ar v = true <-> StepOk g ar v.
+Proof.
+  unfold sv_ok, StepOk. fold_bool. rewrite andb_true_iff, existsb_exists, forallb_forall. split.
+  - intros [[c [Hc Hctl]] Hall]. split; [exists c; split; [exact Hc|apply is_control_spec; exact Hctl]|].
+    intros c' aid a Hc' Hctl' Haid [Ha Hai]. specialize (Hall c' Hc'). apply is_control_spec in Hctl'. rewrite Hctl' in Hall.
+    rewrite forallb_forall in Hall. apply prop_refs_spec in Haid. specialize (Hall aid Haid).
+    rewrite forallb_forall in Hall. specialize (Hall a Ha). apply id_is_spec in Hai. rewrite Hai in Hall.
+    apply results_ok_spec. exact Hall.
+  - intros [[c [Hc Hctl]] Hall]. split; [exists c; split; [exact Hc|apply is_control_spec; exact Hctl]|].
+    intros c' Hc'. destruct (is_control c' (sv_step v)) eqn:Ectl; [|reflexivity].
+    rewrite forallb_forall. intros aid Haid. rewrite forallb_forall. intros a Ha.
+    destruct (id_is a aid) eqn:Eid; [|reflexivity]. apply results_ok_spec.
+    apply (Hall c' aid a Hc'); [apply is_control_spec; exact Ectl|apply prop_refs_spec; exact Haid|
+                                split; [exact Ha|apply id_is_spec; exact Eid]].
+Qed.
+
+(* ---------------------------------------------------------------- the checker decides the predicate *)
+Theorem crate_ok_sound g ar vs ss : crate_ok g ar vs ss = true -> wf_crate g ar vs ss.
+Proof.
+  unfold crate_ok. rewrite !andb_true_iff. intros [[[[[H1 H2] H3] H4] H5] H6]. constructor.
   - apply all_ids_spec. exact H1.
   - apply nodupb_spec. exact H2.
   - apply refs_ok_spec. exact H3.
   - apply (files_ok_spec g ar H1). exact H4.
   - intros v Hin. apply rv_ok_spec. unfold values_ok in H5. rewrite forallb_forall in H5. apply H5. exact Hin.
+  - intros v Hin. apply sv_ok_spec. unfold steps_ok in H6. rewrite forallb_forall in H6. apply H6. exact Hin.
 Qed.
 
-Theorem crate_ok_complete g ar vs : wf_crate g ar vs -> crate_ok g ar vs = true.
+Theorem crate_ok_complete g ar vs ss : wf_crate g ar vs ss -> crate_ok g ar vs ss = true.
 Proof.
-  intros [H1 H2 H3 H4 H5]. unfold crate_ok. rewrite !andb_true_iff.
+  intros [H1 H2 H3 H4 H5 H6]. unfold crate_ok. rewrite !andb_true_iff.
   assert (Hall : all_ids g = true) by (apply all_ids_spec; exact H1).
-  split; [split; [split; [split|]|]|].
+  split; [split; [split; [split; [split|]|]|]|].
   - exact Hall.
   - apply nodupb_spec. exact H2.
   - apply refs_ok_spec. exact H3.
   - apply (files_ok_spec g ar Hall). exact H4.
   - unfold values_ok. rewrite forallb_forall. intros v Hin. apply rv_ok_spec. apply H5. exact Hin.
+  - unfold steps_ok. rewrite forallb_forall. intros v Hin. apply sv_ok_spec. apply H6. exact Hin.
 Qed.
 
-Corollary crate_ok_iff g ar vs : crate_ok g ar vs = true <-> wf_crate g ar vs.
+Corollary crate_ok_iff g ar vs ss : crate_ok g ar vs ss = true <-> wf_crate g ar vs ss.
 Proof. split; [apply crate_ok_sound|apply crate_ok_complete]. Qed.
 
 (* ---------------------------------------------------------------- consequences of well-formedness *)
@@ -405,7 +453,7 @@ Proof.
     + f_equal. eapply IH; eauto.
 Qed.
 
-Lemma wf_lookup_unique g ar vs : wf_crate g ar vs ->
+Lemma wf_lookup_unique g ar vs ss : wf_crate g ar vs ss ->
   forall i e1 e2, Entity g i e1 -> Entity g i e2 -> e1 = e2.
 Proof.
   intros Hwf i e1 e2 [Hin1 Hid1] [Hin2 Hid2].
@@ -415,11 +463,11 @@ Qed.
 
 (* self-containment, stated on its own: a File entity of an accepted crate that records a checksum has an
    archive entry under its @id with exactly that digest *)
-Lemma wf_file_present g ar vs : wf_crate g ar vs ->
+Lemma wf_file_present g ar vs ss : wf_crate g ar vs ss ->
   forall e i h, Entity g i e -> HasType e "File" -> get e "sha1" = Some (JStr h) ->
     exists s, In (i, h, s) ar.
 Proof.
-  intros Hwf e i h He Ht Hs. destruct (wf_files _ _ _ Hwf e i He Ht) as [[d [s Hin]] Hall].
+  intros Hwf e i h He Ht Hs. destruct (wf_files _ _ _ _ Hwf e i He Ht) as [[d [s Hin]] Hall].
   destruct (Hall d s Hin) as [Hsha _]. specialize (Hsha _ Hs). inversion Hsha; subst. exists s. exact Hin.
 Qed.
 
@@ -431,4 +479,13 @@ Proof.
   intros (root & m & mainE & a & x & e & q & _ & _ & _ & _ & _ & _ & _ & _ & _ & Hval). simpl in Hval.
   destruct Hval as [[fe [Hfe [Ht _]]] [[d [s' Hin]] Hall]]. destruct (Hall d s' Hin) as [-> ->].
   exists x, fe. auto.
+Qed.
+
+(* whatever an action of a step lists as result carries the value that step produced *)
+Lemma wf_step_results g ar vs ss : wf_crate g ar vs ss ->
+  forall v c aid a x, In v ss -> In c g -> IsControl c (sv_step v) -> PRef c "object" aid -> Entity g aid a ->
+    PRef a "result" x -> exists e, Entity g x e /\ ValOk g ar e x (sv_val v).
+Proof.
+  intros Hwf v c aid a x Hv Hc Hctl Hobj Ha Hx.
+  destruct (wf_steps _ _ _ _ Hwf v Hv) as [_ Hall]. destruct (Hall c aid a Hc Hctl Hobj Ha) as [_ H]. apply H. exact Hx.
 Qed.
